@@ -27,7 +27,7 @@ COORDS = ("segment_num", "axial_pos_num", "view_num", "tangential_pos_num", "tim
 
 
 def requests():
-    r = [Request(u, fn=["stir::ProjDataInfo.*::get_bin$"], files=["/repo/src/buildblock/.*"]) for u in UNITS]
+    r = [Request(u, fn=["stir::ProjDataInfo.*::get_bin$", "stir::ProjDataInfo.*::find_bin_given_cartesian_coordinates_of_detection"], files=["/repo/src/buildblock/.*"]) for u in UNITS]
     r.append(Request(B + "ProjDataInfoCylindricalArcCorr.cxx", fn=["stir::ProjDataInfoCylindricalArcCorr::get_s", "stir::ProjDataInfoCylindricalNoArcCorr::get_s", "stir::ProjDataInfoCylindrical::get_(phi|m|tantheta)"], files=["/repo/src/include/stir/ProjDataInfoCylindrical.*\\.inl"]))
     r.append(Request(B + "ProjDataInfoCylindricalNoArcCorr.cxx", fn=["stir::ProjDataInfoCylindricalNoArcCorr::get_s"], files=["/repo/src/include/stir/ProjDataInfoCylindrical.*\\.inl"]))
     return r
@@ -82,7 +82,8 @@ def rule_a(ctx, f):
             for m in g.c[0].walk():
                 if m.k == "BinaryOperator" and m.op in ("<", ">", "<=", ">=") and m.i in cfg.pos:
                     a, b = key(m.c[0].strip()), key(m.c[1].strip())
-                    if (a == ck and re.search(r"get_(min|max)_%s\(" % c, b)) or (b == ck and re.search(r"get_(min|max)_%s\(" % c, a)):
+                    if (ck in a and re.search(r"get_(min|max)_%s\(" % c, b)) or (ck in b and re.search(r"get_(min|max)_%s\(" % c, a)):
+                        # also a wrapped coordinate (std::abs(x) <= max): that is a test against the bound it names, and only that one
                         tests.append(m)
         if not tests:
             continue
@@ -145,6 +146,45 @@ def rule_a(ctx, f):
         if writes or fills:
             ctx.ob("C12.a-range-test-after-last-modification", fid, c + ":tested-before-success", okb, tests[0].where(), "every modification of %s is followed by tests against both its minimum and maximum, and such a test decides every successful return" % c if okb else "a path sets %s and returns the bin as found without a range test against both bounds" % c)
             n += 1
+    return n
+
+
+def rule_a_out_parameter(ctx, f):
+    """The same clause for a helper that reports through a Bin& parameter (miss = set_bin_value(-1), found = any other exit): the
+    coordinates a callee fills in (get_bin_for_det...) are compared with BOTH their get_min_ and get_max_ accessor, unwrapped, in the
+    condition that decides the miss, and no found-exit avoids that condition."""
+    pp = [p for p in f.params if re.search(r"\bBin &$", p["t"].strip())]
+    if len(pp) != 1:
+        return 0
+    bk = "v%d" % pp[0]["d"]
+    cfg = CFG(f)
+    neg = [c for c in f.calls() if (c.callee or "").endswith("::set_bin_value") and c.c and key(c.c[0].strip()) == bk and re.fullmatch(r"\(- 1(\.0)?\)|-1(\.0)?", key(c.call_args()[0].strip())) is not None and c.i in cfg.pos]
+    fills = [m for m in f.walk() if m.is_call() and m.i in cfg.pos and (m.callee or "").split("::")[-1].startswith("get_bin_for_det") and any(key(a.strip()) == bk for a in m.call_args())]
+    if not neg or not fills:
+        return 0
+    n = 0
+    deciding = [g for g in f.walk() if g.k == "IfStmt" and g.c and any(any(y is x for y in br.walk()) for x in neg for br in g.c[1:]) and any(any(y is fl for y in g.c[0].walk()) or cfg.dominates(fl, g.c[0].strip()) for fl in fills)]
+    for c in COORDS:
+        ck = "%s.%s()" % (bk, c)
+        tests = []
+        for g in deciding:
+            for m in g.c[0].walk():
+                if m.k == "BinaryOperator" and m.op in ("<", ">", "<=", ">="):
+                    a, b = key(m.c[0].strip()), key(m.c[1].strip())
+                    for x, y in ((a, b), (b, a)):
+                        mm = re.search(r"get_(min|max)_%s\(" % c, y)
+                        if mm and ck in x:
+                            tests.append((mm.group(1), x == ck, m))
+        if not tests:
+            continue
+        both = {b_ for b_, exact, _m in tests if exact} >= {"min", "max"}
+        # every exit that is not a miss passes the deciding condition after the fill
+        dec_ids = {m.i for g in deciding for m in g.c[0].walk()}
+        neg_ids = {x.i for x in neg}
+        escape = any(cfg.paths_avoiding([cfg.pos[fl.i]], lambda x: x.i in dec_ids or x.i in neg_ids) is not None for fl in fills)
+        ok = both and not escape
+        ctx.ob("C12.a-range-test-after-last-modification", f.qn, c + ":tested-before-success", ok, tests[0][2].where(), "the %s a callee filled in is compared with both its minimum and its maximum in the condition that decides found / missing" % c if ok else "the %s a callee filled in is not compared with both bounds (%s) before the bin is left as found: a bin outside the data is reported as found or a valid one as missing" % (c, ", ".join("%s%s" % (b_, "" if e else " (wrapped)") for b_, e, _m in tests)))
+        n += 1
     return n
 
 
@@ -281,8 +321,11 @@ def run(ctx):
                 seen.add((f.file, f.line))
                 rule_a(ctx, f)
                 rule_b(ctx, f)
+            elif f.short == "find_bin_given_cartesian_coordinates_of_detection" and f.body is not None and f.cfg_raw and (f.file, f.line) not in seen:
+                seen.add((f.file, f.line))
+                rule_a_out_parameter(ctx, f)
     accf = [f for u in us[len(UNITS) :] for f in u.functions]
     rule_c(ctx, accf)
-    ctx.require_count("C12.a-range-test-after-last-modification", 6)
+    ctx.require_count("C12.a-range-test-after-last-modification", 9)
     ctx.require_count("C12.b-view-wrap-flips-all", 1)
     ctx.require_count("C12.c-coordinate-symmetries", 6)
